@@ -27,6 +27,7 @@ type writeOpts struct {
 	encoding  string // "", "utf8bom", "utf16le", "utf16be" (the latter two with byte order mark)
 	outDev    string // -o names the process's own standard output (/dev/stdout, /dev/fd/1, /proc/self/fd/1)
 	devStdin  bool   // the document is a FILE argument that is a pipe: /dev/stdin
+	viaText   bool   // the document is what `crd text conv degree` prints for the piece written as chord text (if it can be)
 }
 
 // encodeDoc re-encodes a UTF-8 YAML document.
@@ -52,6 +53,16 @@ func encodeDoc(doc []byte, enc string) []byte {
 // playPiece runs `crd write` on the piece and returns the raw result and bytes.
 func playPiece(c *core.Ctx, p model.Piece, f model.Flags, o writeOpts) (*runner.Result, []byte) {
 	doc := encodeDoc(p.YAML(o.style), o.encoding)
+	if o.viaText {
+		if text, ok := p.DegreeTextPiece(model.TextOpts{}); ok {
+			r := c.Crd.Run(runner.Opt{Stdin: []byte(text)}, "text", "conv", "degree")
+			c.Eval(1)
+			if !r.OK() {
+				return r, nil
+			}
+			doc = r.Stdout
+		}
+	}
 	args := append([]string{"write"}, f.Args()...)
 	args = append(args, o.extra...)
 	var outPath string
